@@ -3,7 +3,7 @@
 use std::any::Any;
 use std::sync::{Arc, Mutex};
 
-use attosim::{ConnCtl, ConnFaults, Peer, NS_PER_MS};
+use attosim::{ConnFaults, Ctl, Peer, NS_PER_MS};
 
 use crate::httpref::{parse_request, ParsedRequest, ReqParse};
 
@@ -45,7 +45,7 @@ impl Script {
         let i = i.min(self.acts.len());
         self.acts.insert(i, Act::Wait(ns));
     }
-    pub fn play(&self, c: &mut ConnCtl, start_delay: u64) {
+    pub fn play(&self, c: &mut dyn Ctl, start_delay: u64) {
         let mut t = start_delay;
         for a in &self.acts {
             match a {
@@ -119,7 +119,7 @@ impl HttpPeer {
 }
 
 impl Peer for HttpPeer {
-    fn on_accept(&mut self, c: &mut ConnCtl) {
+    fn on_accept(&mut self, c: &mut dyn Ctl) {
         if let Some(f) = self.faults.take() {
             c.set_faults(f);
         }
@@ -127,7 +127,7 @@ impl Peer for HttpPeer {
             c.stop_reading();
         }
     }
-    fn on_bytes(&mut self, c: &mut ConnCtl, data: &[u8]) {
+    fn on_bytes(&mut self, c: &mut dyn Ctl, data: &[u8]) {
         if self.responded {
             self.after_len += data.len();
             let conn = c.conn();
@@ -180,7 +180,7 @@ impl Peer for HttpPeer {
             }
         }
     }
-    fn on_client_eof(&mut self, c: &mut ConnCtl) {
+    fn on_client_eof(&mut self, c: &mut dyn Ctl) {
         if !self.responded {
             let m = format!("client closed after {} bytes without a complete request", self.buf.len());
             self.seen.lock().unwrap().requests.push((c.conn(), Err(m)));
@@ -219,7 +219,7 @@ pub struct RawPeer {
 }
 
 impl Peer for RawPeer {
-    fn on_accept(&mut self, c: &mut ConnCtl) {
+    fn on_accept(&mut self, c: &mut dyn Ctl) {
         if let Some(f) = self.faults.take() {
             c.set_faults(f);
         }
@@ -228,7 +228,7 @@ impl Peer for RawPeer {
             self.script.play(c, 0);
         }
     }
-    fn on_bytes(&mut self, c: &mut ConnCtl, data: &[u8]) {
+    fn on_bytes(&mut self, c: &mut dyn Ctl, data: &[u8]) {
         let mut r = self.received.lock().unwrap();
         r.extend_from_slice(data);
         if !self.started {
